@@ -291,6 +291,24 @@ func run(tier, unit string, r *vlib.Rec) {
 func replay(c json.RawMessage) (string, string) {
 	var k kase
 	json.Unmarshal(c, &k)
+	// A failure may depend on what the process parsed before (process-wide
+	// caches): re-run the enumeration of the previous and the current year up to
+	// the case, in the order the check visits them, before judging the case.
+	for y := k.Y - 1; y <= k.Y; y++ {
+		if y < 1 {
+			continue
+		}
+		checkPeriod(y, 0, 0)
+		for m := 1; m <= 12; m++ {
+			checkPeriod(y, m, 0)
+			for d := 1; d <= ref.DaysInMonth(y, m); d++ {
+				if y == k.Y && k.Kind != "year" && (m > k.M || (m == k.M && k.D != 0 && d > k.D)) {
+					break
+				}
+				checkPeriod(y, m, d)
+			}
+		}
+	}
 	var fs []fail
 	switch k.Kind {
 	case "pair":
